@@ -131,6 +131,7 @@ void run_case(Ctx& c) {
             if (!absent) req.headers.push_back({"TTL", ttl_text});
             req.payload = payload;
             auto resp = server->roundtrip(req);
+            if (!resp.ok && server->timed_out()) { c.label("control_timeout_inconclusive"); return; }   // a stalled machine is not a verdict
             if (!resp.ok) c.fail("C02:harness-error", "no control response: " + resp.raw.substr(0, 200));
             std::string code = resp.field("CODE");
             bool stored = resp.field("STATUS") == "OK";
